@@ -226,6 +226,7 @@ func runC20(c *fw.Check) {
 	// 5. rotations / reversal / adjacent swaps of the fragments of generated modules.
 	c20sectionOrder(c)
 	c20idOrder(c)
+	c20rename(c)
 	c20generated(c)
 }
 
